@@ -172,6 +172,19 @@ theorem resolve_clean (cs : List Bytes) (p : CPath) (hshape : InputShape p) :
       simp only [List.nil_append, List.drop_zero] at this
       rw [this, absSt_reverse]; exact ⟨_, rfl⟩
 
+/-- resolving what has been resolved changes nothing (the code resolves the input twice, and the
+walker is handed a resolved root: a second cleaning must not move it) -/
+theorem resolve_idempotent (cs : List Bytes) (p : CPath) (hshape : InputShape p) :
+    resolve (PC.root :: nm cs) (resolve (PC.root :: nm cs) p) = resolve (PC.root :: nm cs) p := by
+  obtain ⟨l, hl⟩ := resolve_clean cs p hshape
+  rw [hl, resolve_abs]
+  by_cases h : nm l = []
+  · rw [if_pos h, h]
+  · rw [if_neg h, run_push_normals]
+    have : (absSt ([] : List Bytes)) = [PC.root] := rfl
+    rw [this]
+    simp [nm, List.map_reverse]
+
 /-! non-vacuity: `../b/./c` from `/w/x` resolves to `/w/b/c`, the torrent goes to `../b/c.torrent`,
 and `verify` on that looks in `../b/c` -/
 section nonvacuous
